@@ -246,11 +246,14 @@ prop("C11", ["prims.go", "c11.go"],
      note="Bound: 2+1 chunks of symbolic length <= 1024; DPOR 2 reversals. " + ENGINE)
 prop("C20", ["prims.go", "c20.go"],
      [run("stop-stop", "harnessC20stop", ["both-stopped"], dpor=True, quick={"max_reversals": 2, "race": True, "bound": "two goroutines calling GRPCServer.Stop"}),
-      run("close-close", "harnessC20close", ["both-closed"], dpor=True, quick={"max_reversals": 2, "race": True, "bound": "two goroutines calling GRPCBroker.Close (sync.Once control)"})],
-     [GRPCSEAM], ["grpc.Server"],
-     "races inside gRPC/yamux; schedules needing more reversals; Client methods / Dispense / broker Accept-Dial mixes (future work)",
-     text="Bounded exploration of all schedules (DPOR) of two goroutines on the real GRPCServer.Stop and GRPCBroker.Close with vector-clock happens-before race detection restricted to accesses made from go-plugin source lines.",
-     note="Bound: 2 goroutines, 2 reversals. " + ENGINE)
+      run("close-close", "harnessC20close", ["both-closed"], dpor=True, quick={"max_reversals": 2, "race": True, "bound": "two goroutines calling GRPCBroker.Close (sync.Once control)"}),
+      run("nextid", "harnessC20nextid", ["ids-distinct"], dpor=True, quick={"max_reversals": 2, "race": True, "bound": "two goroutines each taking two IDs from both broker kinds, counter value symbolic (wrap-around included)"}),
+      run("accept-close", "harnessC20brokerClose", ["host-side", "plugin-side", "both-returned"], dpor=True, files=["prims.go", "c07.go"],
+          quick={"max_reversals": 3, "race": True, "bound": "a GRPCBroker.Accept (sending through the real stream pump) racing with Close of the same broker, host side and plugin side, all schedules with <= 3 reversals"})],
+     [GRPCSEAM, "broker stream = FIFO pair; Send copies the message"], ["grpc.Server", "broker stream"],
+     "races inside gRPC/yamux; schedules needing more reversals than the bound; concurrent Client methods beyond overlapping Kill (C04) and broker Accept/Dial mixes beyond C06-C08's DPOR runs",
+     text="Bounded exploration of all schedules (stateless DPOR over synchronisation operations) of small groups of goroutines on the real GRPCServer.Stop, GRPCBroker.Close/Accept/NextId, MuxBroker.NextId and the real broker stream pumps, with vector-clock happens-before race detection restricted to accesses made from go-plugin source lines: no data race, no panic (double close, send on a closed channel), no hang, IDs distinct.",
+     note="Bound: 2 goroutines per scenario, 2-3 reversals. A race candidate is an unordered pair of accesses by happens-before. " + ENGINE)
 
 PENDING = "check not yet registered in this build session (harness exists in prototype form and is being ported); will be claimed once it has run clean on the unchanged tree"
 for i in range(1, 21):
